@@ -207,7 +207,7 @@ var syncCallbackReceivers = map[string]bool{
 func (la *LockAn) closureContext(f *ssa.Function) (lockState, bool) {
 	parent := f.Parent()
 	if parent == nil {
-		return nil, false
+		return la.boundContext(f)
 	}
 	if _, ok := la.entry[parent]; !ok {
 		return nil, false
@@ -237,6 +237,49 @@ func (la *LockAn) closureContext(f *ssa.Function) (lockState, bool) {
 		}
 	})
 	return res, found
+}
+
+// boundContext: a method value `x.m` handed to a synchronous callback receiver (`db.View(r.read)`, `sort.Slice(s, k.less)`)
+// is the closure `func(a…) { return x.m(a…) }` in disguise. go/ssa represents it by a synthetic parentless "$bound"
+// wrapper with the receiver as its only free variable; the wrapper (and through its static call the method) runs with
+// the locks held at the calls that receive it. Every place in the analysed set that forms the method value must hand it
+// directly to such a receiver from an already analysed function; a method value that is stored, returned, deferred or
+// started as a goroutine runs at an unknown time and gets no context (it is then seeded with "nothing held").
+func (la *LockAn) boundContext(f *ssa.Function) (lockState, bool) {
+	if f.Synthetic == "" || len(f.FreeVars) != 1 {
+		return nil, false
+	}
+	var res lockState
+	found, okAll := false, true
+	for g := range la.scope {
+		allInstrs(g, func(i ssa.Instruction) {
+			mc, ok := i.(*ssa.MakeClosure)
+			if !ok || mc.Fn != ssa.Value(f) {
+				return
+			}
+			if _, analysed := la.entry[g]; !analysed {
+				okAll = false
+				return
+			}
+			for _, r := range referrers(mc) {
+				if _, isDbg := r.(*ssa.DebugRef); isDbg {
+					continue
+				}
+				call, isCall := r.(*ssa.Call)
+				if !isCall || (call.Call.Value != ssa.Value(mc) && !syncCallbackReceivers[calleeName(&call.Call)]) {
+					okAll = false
+					continue
+				}
+				s := la.stateAt(call)
+				if !found {
+					res, found = s, true
+				} else {
+					res = meetLock(res, s)
+				}
+			}
+		})
+	}
+	return res, found && okAll
 }
 
 func (la *LockAn) problem(ins ssa.Instruction, msg string) {
